@@ -73,6 +73,10 @@ def sortable(value):
     """every dict in the value has mutually comparable keys the model can order (numbers / str / bytes / tuples of those, one family)"""
     def fam(k):
         k = V.strip_comments(k)
+        if k is None:
+            return 'none'
+        if k is Ellipsis:
+            return 'ellipsis'
         if isinstance(k, bool) or isinstance(k, int):
             return 'num'
         if isinstance(k, float):
@@ -94,12 +98,25 @@ def sortable(value):
             v0 = v0.value
         if isinstance(v0, dict):
             fams = {fam(k) for k in v0}
-            if None in fams or len(fams) > 1:
+            if None in fams:
                 return False
+            if len(fams) > 1:
+                # keys of several families are ordered by the names of their types (fix F23).  The model agrees with `sorted` whenever
+                # that comparison is a consistent total pre-order: at most one family of tuples, and number keys of one exact type
+                # (int / float / bool compare by value among each other, but their type names interleave with 'bytes' and 'bool')
+                keys = [V.strip_comments(k) for k in v0]
+                if sum(1 for f in fams if isinstance(f, tuple)) > 1:
+                    return False
+                if len({type(k) for k in keys if isinstance(k, (int, float))}) > 1:
+                    return False
             # tuples of different length/shape compare fine only if elementwise families agree: be conservative
             return all(walk(k) and walk(x) for k, x in v0.items())
         if isinstance(v0, (list, tuple, set, frozenset)):
             return all(walk(x) for x in v0)
+        desc = getattr(v0, '__verif_call__', None)
+        if desc is not None:
+            c = desc()
+            return all(walk(a) for a in c.args) and all(walk(x) for _, x in c.kwargs)
         return True
     return walk(value)
 
@@ -121,7 +138,16 @@ def oracle_c01(value, text):
 def sorted_copy(v):
     """the value with every dict re-inserted in ascending key order (what sort_dict_keys=True must print)"""
     if type(v) is dict:
-        return {sorted_copy(k): sorted_copy(v[k]) for k in sorted(v.keys())}
+        import functools
+
+        def cmp(a, b):
+            # ascending where `<` is defined; keys that cannot be compared are grouped by the name of their type and keep insertion order
+            try:
+                return -1 if a < b else (1 if b < a else 0)
+            except TypeError:
+                ta, tb = (type(a).__module__, type(a).__qualname__), (type(b).__module__, type(b).__qualname__)
+                return -1 if ta < tb else (1 if tb < ta else 0)
+        return {sorted_copy(k): sorted_copy(v[k]) for k in sorted(v.keys(), key=functools.cmp_to_key(cmp))}
     if type(v) in (list, tuple):
         return type(v)(sorted_copy(x) for x in v)
     if type(v) in (set, frozenset):
@@ -394,6 +420,15 @@ def builtin_values_section(tier, seed):
             d = {(k, rng.choice([1, 2.5])): 0 for k in keys}
         v = rng.choice([d, [d, 1], {'outer': d}, (d,)])
         cases.append((v, settings_for(rng, v, 'quick', (0, 1))[::3]))
+    # keys of several types that cannot be compared with each other: grouped by type name, value order within a group, insertion
+    # order where neither applies (F23); every insertion order of a few such key sets
+    mixed_pool = [3, 1, 'b', 'a', b'y', b'x', None, (2, 1), (1, 9), Ellipsis]
+    for _ in range(150 if tier == 'quick' else 1500):
+        keys = rng.sample(mixed_pool, rng.choice([2, 3, 4, 5, 6]))
+        d = {k: rng.choice([0, 'v', [1]]) for k in keys}
+        v = rng.choice([d, [d, 1], {'outer': d, 1: d}])
+        if sortable(v):
+            cases.append((v, settings_for(rng, v, 'quick', (0, 1))[::3]))
     tot, nt, mism, fails = run_cases(cases, 'c01')
     stats = {'evaluations': tot, 'distinct_nontrivial': nt, 'small_trees': len(small), 'random_values': n_rand,
              'mismatches': len(mism),
@@ -1458,6 +1493,9 @@ def reader_section(tier, seed, mode='all'):
         vals += [[rand_call(rng), S.make(rng, list, [1, 'a'])] for _ in range(k // 5)]
     if mode in ('all', 'c01'):
         vals += [V.rand_value(rng, budget=rng.choice([3, 8, 20])) for _ in range(k)]
+    if mode == 'c10':
+        vals += [V.rand_value(rng, budget=rng.choice([8, 20, 40])) for _ in range(k)]
+        vals += subclass_values(rng, k // 3) + [rand_call(rng) for _ in range(k // 3)]
     cases = []
     for v in vals:
         if contains_enum(v):
@@ -1466,7 +1504,13 @@ def reader_section(tier, seed, mode='all'):
             v2 = add_comments(rng, v, 0.2)
             if not has_trailing_on_empty_dict_subclass(v2):      # K7
                 v = v2
-        sets = [(i, w, r, None, None, 0) for (i, w, r, _, _, _) in settings_for(rng, v, 'quick')[::2]]
+        if mode == 'c10':
+            # truncated (and, where the keys allow it, sorted) output: the reader still reads it - as the first N elements
+            msl = rng.choice([1, 2, 3, 5])
+            srt = 1 if sortable(V.strip_comments(v)) and not comment_inside_tuple_key(v) and rng.random() < 0.5 else 0
+            sets = [(i, w, r, None, msl, srt) for (i, w, r, _, _, _) in settings_for(rng, v, 'quick')[::2]]
+        else:
+            sets = [(i, w, r, None, None, 0) for (i, w, r, _, _, _) in settings_for(rng, v, 'quick')[::2]]
         cases.append((v, sets))
     chunks = [cases[i:i + 25] for i in range(0, len(cases), 25)]
     tot = nt = 0
